@@ -8,5 +8,6 @@ INVARIANT IndexInBounds
 INVARIANT PushErrImpliesReject
 INVARIANT ChunkingIrrelevant
 INVARIANT RoundTrip
+INVARIANT ProbeLaw
 PROPERTY ErrorsSticky
 CHECK_DEADLOCK FALSE
